@@ -402,6 +402,19 @@ func (w *World) checkCallQF(c *Call) {
 		for _, e := range parseNodeErrors(c.ErrText) {
 			seen[e.ID]++
 		}
+		// an error reaches only the call whose request caused it: a node that reports a bare context
+		// error reports the end of *that request's* context - if this call's context had not ended
+		// when the call completed, the error belongs to somebody else's request
+		ended := c.CtxEndSeq != 0 && c.CtxEndSeq < c.DoneSeq
+		for _, e := range parseNodeErrors(c.ErrText) {
+			if e.Text != context.Canceled.Error() && e.Text != context.DeadlineExceeded.Error() {
+				continue
+			}
+			w.rule("C05.error-attributed", ended)
+			if !ended {
+				w.violate("C05", "error-misrouted", "", "call t%d (%s, ctx %s): node %d reported %q although this call's context had not ended - the error of another call's request", c.Tok, c.Stub, c.CtxKind, e.ID, e.Text)
+			}
+		}
 		var lastSet map[uint32]int64
 		if n := len(c.QFInv); n > 0 {
 			lastSet = c.QFInv[n-1].Replies
@@ -514,7 +527,16 @@ func (w *World) checkCallOutcome(c *Call) {
 	}
 	switch {
 	case c.Err == nil:
-		// justified by C01's success rule
+		// justified by C01's success rule; what C02 adds: success comes with the *first* reply for
+		// which the quorum function reports a quorum. For a plan "k replies" (from whichever nodes)
+		// that is the k-th reply, so the reply set of the deciding invocation has exactly k entries.
+		if spec := c.Op.QF; spec != nil && last != nil && spec.NeedServer < 0 && spec.Threshold > 0 && spec.DoneAt == 0 && (c.Info.Kind == "qc" || c.Info.Kind == "async") {
+			ok := len(last.Replies) == spec.Threshold
+			w.rule("C02.success-at-first-quorum", ok)
+			if !ok {
+				w.violate("C02", "success-not-at-first-quorum", "", "call t%d (%s) succeeded on a reply set of %d replies although its quorum function reports a quorum for %d replies: the call did not end with the first reply that gave a quorum", c.Tok, c.Stub, len(last.Replies), spec.Threshold)
+			}
+		}
 	case errors.Is(c.Err, gorums.Incomplete):
 		quorum := false
 		for _, inv := range c.QFInv {
@@ -537,6 +559,14 @@ func (w *World) checkCallOutcome(c *Call) {
 		w.rule("C02.incomplete-accounting", ok)
 		if !ok {
 			w.violate("C02", "incomplete-accounting", "", "call t%d (%s): Incomplete reports errors=%d replies=%d for %d targeted nodes (quorum function last saw %d replies): %q", c.Tok, c.Stub, e, r, len(c.Targets), nrep, firstLine(c.ErrText))
+		}
+		if spec := c.Op.QF; ok && !quorum && spec != nil && spec.NeedServer < 0 && spec.Threshold > 0 && spec.DoneAt == 0 && (c.Info.Kind == "qc" || c.Info.Kind == "async") {
+			// r replies arrived one after the other; the Threshold-th of them gave a quorum
+			missed := r >= spec.Threshold
+			w.rule("C02.no-quorum-missed", !missed)
+			if missed {
+				w.violate("C02", "quorum-missed", "", "call t%d (%s) returned Incomplete with %d replies although its quorum function reports a quorum for a reply set of %d replies, which the %d-th reply completed", c.Tok, c.Stub, r, spec.Threshold, spec.Threshold)
+			}
 		}
 		if quorum {
 			w.violate("C02", "incomplete-despite-quorum", "", "call t%d (%s) returned Incomplete although its quorum function had reported a quorum", c.Tok, c.Stub)
